@@ -53,7 +53,10 @@ class C03:
                     outputs[-1] = fg.gen_state(rng, nin, photons + 1) if rng.random() < 0.6 else outputs[-1][:-1]
                 else:
                     inputs[0] = inputs[0][:-1]
-            cases.append(dict(kind="sim", prog=prog, cid=cid, inputs=inputs, outputs=outputs))
+            # early: the Simulator is created as soon as the circuit object exists, the rest of the program
+            # (components, heralds, additions) then modifies the circuit in place and simulate() runs last -
+            # the amplitudes must be those of the circuit as it is when simulate() is called
+            cases.append(dict(kind="sim", prog=prog, cid=cid, inputs=inputs, outputs=outputs, early=(i % 3 == 1)))
         return cases
 
     def _circuit(self, c):
@@ -61,12 +64,21 @@ class C03:
         return pool[c["cid"]]
 
     def impl(self, c):
-        circ = self._circuit(c)
+        holder = {}
+
+        def on_step(pool, op, out, before):
+            if c.get("early") and "sim" not in holder and op[0] in ("new", "unitary", "copy", "plus") and op[1] == c["cid"] \
+                    and c["cid"] in pool:
+                holder["sim"] = emulator.Simulator(pool[c["cid"]])
+
+        _, pool = cg.run_impl(c["prog"], on_step=on_step, want=lambda op: [])
+        circ = pool[c["cid"]]
         ins = [lw.State(list(s)) for s in c["inputs"]]
         outs = None if c["outputs"] is None else [lw.State(list(s)) for s in c["outputs"]]
 
         def run():
-            res = emulator.Simulator(circ).simulate(ins if len(ins) != 1 else ins[0], outs)
+            sim = holder.get("sim") or emulator.Simulator(circ)
+            res = sim.simulate(ins if len(ins) != 1 else ins[0], outs)
             arr = res.array
             return [[list(s) for s in res.outputs], [[[float(x.real), float(x.imag)] for x in row] for row in arr]]
 
